@@ -383,10 +383,14 @@ func runC10(c *Ctx) {
 		check(rep, "runner.Diagnostic", "Position", IsFieldOf("analysis.Diagnostic", "Pos"), "the position of a problem")
 		// same file set: both from loader.Package.Fset
 		do := c.Func("lintcmd/runner", "(*subrunner).do")
-		sameFset := false
-		for _, ci := range CallsTo(do, false, runnerPkg+".serializeDirective") {
-			if Derives(ci.Common().Args[1], IsFieldOf("loader.Package", "Fset")) {
-				sameFset = true
+		sameFset, nSer := false, 0
+		for _, fn := range c.ModuleFuncs() {
+			if FuncPkgPath(fn) != runnerPkg {
+				continue
+			}
+			for _, ci := range CallsTo(fn, false, runnerPkg+".serializeDirective") {
+				nSer++
+				sameFset = Derives(ci.Common().Args[1], IsFieldOf("loader.Package", "Fset")) && (sameFset || nSer == 1)
 			}
 		}
 		repFset := false
